@@ -103,8 +103,10 @@ impl ExecutionCidState {
     pub(crate) fn get_value_by_cid(&self, cid: &CID<RawValue>) -> Result<JValue, UncatchableError> {
         self.value_tracker
             .get(cid)
-            .ok_or_else(|| UncatchableError::ValueForCidNotFound("value", cid.get_inner()))
-            .map(|vm_value| vm_value.get_value())
+            .ok_or_else(|| UncatchableError::ValueForCidNotFound("value", cid.get_inner()))?
+            .try_get_value()
+            // the value store of data from a malicious peer can hold a text that isn't JSON
+            .map_err(|e| UncatchableError::CidError(e.into()))
     }
 
     pub(crate) fn get_tetraplet_by_cid(
